@@ -78,7 +78,7 @@ impl Property for C16 {
             .boxed()
     }
     fn quota(tier: Tier) -> u64 {
-        tier.pick(300_000, 8_000_000)
+        tier.pick(3_000_000, 60_000_000)
     }
     fn rule() -> String {
         "Point pairs with lon in [-180,180], lat in [-90,90]: uniform, axis / pole / antimeridian special values, antimeridian \
